@@ -27,7 +27,9 @@ static Json genC03(const std::string &prop, uint64_t seed, const std::string &ti
         g.params[P_segment] = r.pick(std::vector<double>{0, 10, 50, 200});
         if (g.ortho && g.params[P_segment] == 0) g.params[P_segment] = 10;
         if (member == 0 || member == 1) { g.touching = true; g.gap = 0; }                    // touching shapes, collinear edges
-        else if (member == 2) { double b = r.pick(std::vector<double>{4, 8}); g.params[P_buffer] = b; g.gap = 2 * b + 5; g.endMargin = b + 1; g.polygons = false; }
+        else if (member == 2) { double b = r.pick(std::vector<double>{4, 8}); g.params[P_buffer] = b; g.gap = 2 * b + 5; g.endMargin = b + 1; g.polygons = false;
+            // side stream: shapes closer to each other than twice the buffer (their routing boxes overlap, nothing can pass between them)
+            Rng r2(Rng::mix(r.s, "close-buffered")); if (r2.chance(0.5)) { g.gap = r2.pick(std::vector<double>{5, b, 0}); if (g.gap == 0) g.touching = true; } }
         else if (member == 3 || member == 4) { g.params[P_crossing] = r.pick(std::vector<double>{100, 200}); g.cancelFaults = true; if (r.chance(0.5)) g.params[P_fixedShared] = 110; }
         else if (member == 5) { g.params[P_angle] = r.pick(std::vector<double>{0, 20}); g.dirRestrict = true; }
         else if (member == 6) addPinOps(g, false);
